@@ -332,6 +332,13 @@ class BaseApprox(Item):
     def __repr__(self):
         return "%s(%s, %s)" % (self.__class__.__name__, self.term.__repr__(), self.degree)
 
+    def _clone_item(self, cls, *args, **kwargs):
+        # an implicit degree must stay implicit (it only affects display)
+        implicit_degree = self._implicit_degree and "degree" not in kwargs
+        new_item = super()._clone_item(cls, *args, **kwargs)
+        new_item._implicit_degree = implicit_degree
+        return new_item
+
     def __str__(self, head_tail=False):
         value = "%s~%s" % (
             self.term.__str__(head_tail=True),
@@ -384,6 +391,13 @@ class Boost(Item):
 
     def __repr__(self):
         return "%s(%s, %s)" % (self.__class__.__name__, self.expr.__repr__(), self.force)
+
+    def _clone_item(self, cls, *args, **kwargs):
+        # an implicit force must stay implicit (it only affects display)
+        implicit_force = self.implicit_force and "force" not in kwargs
+        new_item = super()._clone_item(cls, *args, **kwargs)
+        new_item.implicit_force = implicit_force
+        return new_item
 
     def __str__(self, head_tail=False):
         force = "" if self.implicit_force else _format_number(self.force)
